@@ -133,4 +133,4 @@ Example T01_example :
          (k_xfp, [b "http"]); (k_xfh, [b "example.com"]); (k_xfu, [b "http://example.com/a?b"]); (k_ua, [[]])] = true
   | Refused _ => False
   end.
-Proof. exact eq_refl. Qed.
+Proof. exact example_01. Qed.
